@@ -4,12 +4,14 @@ use std::io::{self, BufRead, Write};
 
 mod ns;
 pub mod parse;
+mod pkgname;
 
 fn main() {
     let engine = std::env::args().nth(1).expect("engine");
     let f: fn(&str) -> String = match engine.as_str() {
         "ns" => ns::run_case,
         "parse" => parse::run_case,
+        "pkgname" => pkgname::run_case,
         other => panic!("unknown engine {other}"),
     };
     let stdin = io::stdin();
